@@ -20,6 +20,7 @@ type Env struct {
 	pkg   *types.Package // scope for constants, type names and imports
 	frame *Frame         // for local variables by name (loop invariants); may be nil
 	log   *[]writeRec
+	cellState *State        // state used for local variables (at_lock/at_unlock keep current locals)
 	oldVars map[string]*Val // parameter entry values, used inside old() and as a fallback in body mode
 }
 
@@ -165,7 +166,11 @@ func (env *Env) eval(e *Expr) *Val {
 			return v
 		}
 		if env.frame != nil {
-			if v := env.frame.localByName(env.cur, e.Name); v != nil {
+			cs := env.cur
+			if env.cellState != nil {
+				cs = env.cellState
+			}
+			if v := env.frame.localByName(cs, e.Name); v != nil {
 				return v
 			}
 		}
@@ -269,7 +274,12 @@ func (env *Env) selectField(base *Val, name string) *Val {
 		} else if pt, ok := base.T.Underlying().(*types.Pointer); ok {
 			if i, ok := findField(pt.Elem(), name); ok {
 				a := env.c.fieldAddr(base, pt.Elem(), i)
-				return env.c.loadAddr(env.cur, a, pt.Elem().Underlying().(*types.Struct).Field(i).Type())
+				ft := pt.Elem().Underlying().(*types.Struct).Field(i).Type()
+				if _, isStruct := ft.Underlying().(*types.Struct); isStruct && a.Kind != ACell {
+					// embedded struct: its address (gives field access and an identity for ghost fields)
+					return ptrVal(types.NewPointer(ft), a)
+				}
+				return env.c.loadAddr(env.cur, a, ft)
 			}
 			// promoted fields through embedded structs (one level)
 			if st, ok := pt.Elem().Underlying().(*types.Struct); ok {
@@ -409,6 +419,20 @@ func (env *Env) evalCall(e *Expr) *Val {
 	switch e.Name {
 	case "old":
 		return env.inOld().eval(e.Args[0])
+	case "at_lock", "at_unlock": // state right after the most recent acquisition / right before the most recent release
+		snap := env.cur.snaps["lock"]
+		if e.Name == "at_unlock" {
+			snap = env.cur.snaps["unlock"]
+		}
+		if snap == nil {
+			efail("%s() used but no lock was acquired/released on this path", e.Name)
+		}
+		n := *env
+		n.cur = snap
+		if n.cellState == nil {
+			n.cellState = env.cur
+		}
+		return n.eval(e.Args[0])
 	case "len":
 		v := env.eval(e.Args[0])
 		switch v.K {
